@@ -21,12 +21,18 @@ def build_mesh(desc, tags=True):
         cur = desc.get('curve')
         if cur and any(cur):
             nv = m.nvertices
-            # shortest edge of the mesh (first-order vertices)
+            # smallest cell height of the mesh (measure / longest edge^(d-1)): displacements stay a
+            # small fraction of it, so every curved cell remains a valid (invertible) image
+            from .oracle import maps
             P = m.p[:, :nv]
             tt = m.t
-            h = min(np.linalg.norm(P[:, tt[a]] - P[:, tt[b]], axis=0).min()
-                    for a in range(tt.shape[0]) for b in range(a)
-                    if _is_edge(kind, a, b))
+            dd = P.shape[0]
+            h = np.inf
+            for k in range(tt.shape[1]):
+                Q = P[:, tt[:, k]]
+                hmax = max(np.linalg.norm(Q[:, a] - Q[:, b]) for a in range(Q.shape[1]) for b in range(a))
+                hmin = min(np.linalg.norm(Q[:, a] - Q[:, b]) for a in range(Q.shape[1]) for b in range(a))
+                h = min(h, maps.cell_measure(kind, Q) / hmax ** (dd - 1), hmin)
             newp = m.p.copy()
             d = newp.shape[0]
             for j in range(nv, newp.shape[1]):
